@@ -259,6 +259,114 @@ theorem solve_neg (prog : List Term) (n d nv l : Nat) (g : Term) (rest : List SL
     exact solve_ite prog n d nv l (SLD.call1 g) (.atom "fail") (.atom "true") rest q limit
   · intro v hv; cases hv
 
+/-! ### a disjunction as a goal -/
+
+theorem disjHead_not_arrow {a : Term} (ha : disjHead a = true) : ∀ c t, a ≠ .app "->" (.cons c (.cons t .nil)) := by
+  intro c t h
+  subst h
+  simp [disjHead, Args.length] at ha
+
+theorem disjHead_img (σ : Subst) (π : Nat → Nat) {a : Term} (ha : disjHead a = true) : disjHead (img σ π a) = true := by
+  cases a with
+  | atom f => rfl
+  | app f as =>
+    simpa [img, Term.rename, Term.subst, disjHead, Args.length_subst] using ha
+  | var _ => simp [disjHead] at ha
+  | int _ => simp [disjHead] at ha
+  | flt _ => simp [disjHead] at ha
+  | str _ => simp [disjHead] at ha
+
+/-- `(a ; b)` as a goal, not an if-then-else: the reference runs the body of `call((a ; b))` -/
+theorem solve_disj_goal (prog : List Term) (n d nv l : Nat) (a b : Term) (rest : List SLD.Frame) (q : Term)
+    (limit : Nat) (ha : disjHead a = true) :
+    SLD.solve false prog (n + 1) d nv (.goal (.app ";" (.cons a (.cons b .nil))) l :: rest) q limit =
+      SLD.solve false prog (n + 1) d nv (.goal (SLD.call1 (.app ";" (.cons a (.cons b .nil)))) l :: rest) q limit := by
+  have hna := disjHead_not_arrow ha
+  have hR : SLD.solve false prog (n + 1) d nv (.goal (SLD.call1 (.app ";" (.cons a (.cons b .nil)))) l :: rest) q limit =
+      (if SLD.okBody false (.app ";" (.cons a (.cons b .nil))) then
+        SLD.solveAlts false prog n d nv (SLD.bodyAlts false (.app ";" (.cons a (.cons b .nil))) d) rest q limit
+       else SLD.raise (SLD.typeErr "callable" (.app ";" (.cons a (.cons b .nil))))) := by
+    rw [SLD.solve]
+    · simp [SLD.call1, SLD.functor, Args.toList, SLD.addArgs, Term.mk, Args.ofList]
+    · intro v hv; cases hv
+  rw [hR]
+  rw [SLD.solve]
+  · simp only [SLD.functor, Args.toList]
+    split
+    · rename_i h; cases h
+    · rfl
+  · intro v hv; cases hv
+
+/-- the heads of the two if-then-else clauses of `;`/2 clash with a disjunction whose first
+    alternative is callable and not `->`/2 -/
+theorem clash_ite {a b : Term} (ha : disjHead a = true) (x y z : Term) :
+    Robinson.solve 2 [(.app ";" (.cons a (.cons b .nil)),
+      .app ";" (.cons (.app "->" (.cons x (.cons y .nil))) (.cons z .nil)))] [] = .clash := by
+  have hna := disjHead_not_arrow ha
+  have h1 : (Term.app ";" (.cons a (.cons b .nil))) ≠
+      .app ";" (.cons (.app "->" (.cons x (.cons y .nil))) (.cons z .nil)) := by
+    intro h
+    simp only [Term.app.injEq, Args.cons.injEq, true_and, and_true] at h
+    exact hna x y h.1
+  rw [Robinson.solve, if_neg h1]
+  simp only [Args.length, and_self, if_true, Robinson.zipArgs, List.append_nil]
+  rw [Robinson.solve, if_neg (hna x y)]
+  cases a with
+  | atom f => rfl
+  | app f as =>
+    have : ¬ (f = "->" ∧ as.length = 2) := by
+      simp only [disjHead, Bool.not_eq_true', Bool.and_eq_false_iff, beq_eq_false_iff_ne, ne_eq] at ha
+      rintro ⟨h1, h2⟩
+      rcases ha with ha | ha
+      · exact ha h1
+      · exact ha h2
+    simp only [Args.length, this, if_false]
+  | var _ => simp [disjHead] at ha
+  | int _ => simp [disjHead] at ha
+  | flt _ => simp [disjHead] at ha
+  | str _ => simp [disjHead] at ha
+
+/-- **a clause whose head clashes with the goal**: no alternative of the reference -/
+theorem altRel_dead {fl : Bool} {tmpl : Term} {N : Nat} {env : Env} {σ : Subst} {π : Nat → Nat} {D : Nat → Prop}
+    {nv d : Nat} {g c : Term}
+    (hW : SimW tmpl N env σ π D nv) (hcl : clauseC fl c = true) (hkey : headKey c = goalKey g)
+    (hbv : ∀ x, (SLD.headBody c).2.hasVar x = true → (SLD.headBody c).1.hasVar x = true)
+    (hclash : ∃ n, Robinson.solve n [(img σ π g, (SLD.headBody c).1.rename (fun x => nv + x))] [] = .clash) :
+    AltRel fl σ π D nv d g (clauseOf c) c none := by
+  have hcvh : ∀ x, CV c x → (SLD.headBody c).1.hasVar x = true := by
+    rintro x (hx | hx)
+    · exact hx
+    · exact hbv x hx
+  refine .dead (fun x => nv + x) (nv + SLD.maxVar (SLD.headBody c).1) (clauseOf_spec c hcl).2 hkey (Nat.le_add_right _ _)
+    (fun x y _ _ hxy => by
+      have : nv + x = nv + y := hxy
+      omega)
+    (fun x u _ hu => by
+      have := hW.bnd u hu
+      show π u ≠ nv + x
+      omega)
+    (fun x hx => by
+      have := hasVar_lt_maxVar _ (hcvh x hx)
+      show nv + x < nv + SLD.maxVar (SLD.headBody c).1
+      omega)
+    hclash
+
+theorem clauseC_disj3 : clauseC true disj3 = true := by decide +kernel
+
+theorem bv_disj3 : ∀ x, (SLD.headBody disj3).2.hasVar x = true → (SLD.headBody disj3).1.hasVar x = true := by
+  intro x hx
+  simp [disj3, SLD.headBody, SLD.rule, SLD.mk2, SLD.call1, cV, Term.hasVar, Args.hasVar] at hx ⊢
+  omega
+
+theorem wrapBody_disj3 : WrapBody disj3 := by
+  constructor
+  · intro bg hbg
+    simp [disj3, SLD.headBody, SLD.rule, SLD.mk2, SLD.call1, SLD.conjuncts, SLD.wrapVar] at hbg
+    subst hbg
+    intro h; cases h
+  · intro h
+    simp [disj3, SLD.headBody, SLD.rule, SLD.mk2, SLD.call1] at h
+
 /-! ### the VM on the control constructs: not built in -/
 
 theorem builtin_neg (n : Nat) (g : Term) (k : Cont) (env : Env) (m : MS) :
@@ -286,6 +394,46 @@ theorem builtin_arrow (n : Nat) (a b : Term) (k : Cont) (env : Env) (m : MS) :
     builtin (n + 1) "->" [a, b] k env m = none := by
   rw [builtin]
   all_goals simp
+
+/-- `callN` -/
+theorem builtin_callN (n : Nat) (g e : Term) (es : List Term) (k : Cont) (env : Env) (m : MS) :
+    builtin (n + 1) "call" (g :: e :: es) k env m =
+      match res env g with
+      | .var _ => some (some (mkErr instErr env m))
+      | .atom a => some (some (callGoal (.app a (Args.ofList (e :: es))) k env m))
+      | .app a as => some (some (callGoal (.app a (Args.ofList (as.toList ++ e :: es))) k env m))
+      | other => some (some (mkErr (typeErr "callable" other) env m)) := by
+  rw [builtin]
+  rfl
+
+theorem builtin_callN_var (n : Nat) (g e : Term) (es : List Term) (k : Cont) (env : Env) (m : MS) (v : Nat)
+    (hr : res env g = .var v) :
+    builtin (n + 1) "call" (g :: e :: es) k env m = some (some (mkErr instErr env m)) := by
+  rw [builtin_callN, hr]
+
+theorem builtin_callN_some (n : Nat) (g e : Term) (es : List Term) (k : Cont) (env : Env) (m : MS) (g0 G : Term)
+    (hr : res env g = g0) (h : addArgsVM g0 (e :: es) = some G) :
+    builtin (n + 1) "call" (g :: e :: es) k env m = some (some (callGoal G k env m)) := by
+  rw [builtin_callN, hr]
+  cases g0 with
+  | atom a => simp only [addArgsVM, Option.some.injEq] at h; subst h; rfl
+  | app a as => simp only [addArgsVM, Option.some.injEq] at h; subst h; rfl
+  | var _ => simp [addArgsVM] at h
+  | int _ => simp [addArgsVM] at h
+  | flt _ => simp [addArgsVM] at h
+  | str _ => simp [addArgsVM] at h
+
+theorem builtin_callN_none (n : Nat) (g e : Term) (es : List Term) (k : Cont) (env : Env) (m : MS) (g0 : Term)
+    (hr : res env g = g0) (h : addArgsVM g0 (e :: es) = none) (hnv : ∀ v, g0 ≠ .var v) :
+    builtin (n + 1) "call" (g :: e :: es) k env m = some (some (mkErr (typeErr "callable" g0) env m)) := by
+  rw [builtin_callN, hr]
+  cases g0 with
+  | var v => exact absurd rfl (hnv v)
+  | atom _ => simp [addArgsVM] at h
+  | app _ _ => simp [addArgsVM] at h
+  | int _ => rfl
+  | flt _ => rfl
+  | str _ => rfl
 
 theorem userPred_semi : userPred ";" 2 = false := by simp [userPred, reservedNames]
 theorem userPred_arrow : userPred "->" 2 = false := by simp [userPred, reservedNames]
